@@ -1,6 +1,5 @@
 from xml.etree import ElementTree
 from xml.etree.ElementTree import Element
-from xml.dom import minidom
 from typing import Any
 
 from flamapy.core.models.ast import Node, ASTOperation
@@ -31,11 +30,7 @@ class FeatureIDEWriter(ModelToText):
 
     def transform(self) -> str:
         fm_tree = _to_featureidexml(self._source_model).getroot()
-        xml_str = ElementTree.tostring(fm_tree,
-                                       encoding='UTF-8',
-                                       method='xml',
-                                       xml_declaration=True)
-        xml_str = prettify(xml_str)
+        xml_str = prettify(fm_tree)
         if self._path is not None:
             with open(self._path, 'wb') as file:
                 file.write(xml_str)
@@ -134,7 +129,11 @@ def _get_ctc_info(ast_node: Node) -> dict[str, Any]:
     return ctc_info
 
 
-def prettify(xml: str) -> bytes:
+def prettify(element: Element) -> bytes:
     """Return a pretty-printed XML string for the Element."""
-    reparsed = minidom.parseString(xml)
-    return reparsed.toprettyxml(indent="\t", encoding='UTF-8')
+    ElementTree.indent(element, space="\t")
+    xml_str = ElementTree.tostring(element, encoding='UTF-8', method='xml', xml_declaration=True)
+    # Tabs and line breaks in attribute values are written as character references by
+    # ElementTree (minidom wrote them literally and a parser normalizes them to blanks);
+    # a carriage return inside a text needs one too, otherwise it is read back as a line feed.
+    return xml_str.replace(b'\r', b'&#13;') + b'\n'
